@@ -72,7 +72,8 @@ static void write_file(const std::string &p, const std::string &t) { std::ofstre
 int main(int argc, char **argv) {
   if (!freopen("/dev/null", "w", stdout)) {}
   if (const char *rf = arg_value(argc, argv, "--replay")) { std::ifstream f(rf); std::stringstream ss; ss << f.rdbuf(); std::vector<Op> ops; std::string prop; if (!history_from_text(ss.str(), ops, prop)) { fprintf(stderr, "not a history file\n"); return 2; }
-    Profile pf = profile_for(prop); History H; int fm = atoi(arg_value(argc, argv, "--fatal-mode", "0")); H.cfg.catalogue = catalogue_for(prop, pf, fm);
+    bool enumfile = prop.size() > 5 && prop.substr(prop.size() - 5) == "-enum"; if (enumfile) prop = prop.substr(0, prop.size() - 5);
+    Profile pf = profile_for(prop); History H; int fm = atoi(arg_value(argc, argv, "--fatal-mode", "0")); H.cfg.catalogue = enumfile ? read_catalogue() : catalogue_for(prop, pf, fm); if (enumfile) pf.fresh = false;
     H.cfg.check_fresh = pf.fresh; H.cfg.audit_every_step = pf.audit; H.cfg.c_interface = true; H.cfg.fatal_mode = fm; try { H.run(ops); } catch (int e) { H.fail(prop, "the fatal error (" + std::to_string(e) + ") was raised by a call that is legal at this point of the history: " + (H.trace.empty() ? std::string("?") : H.trace.back())); } catch (...) { H.fail(prop, "an unexpected exception escaped from the library"); }
     for (size_t i = 0; i < H.trace.size(); i++) fprintf(stderr, "  %3zu %s\n", i + 1, H.trace[i].c_str());
     bool mine = false; for (auto &fl : H.fails) { fprintf(stderr, "  FAIL[%s] at step %d: %s\n", fl.prop.c_str(), fl.step, fl.msg.c_str()); if (fl.prop == prop) mine = true; } fprintf(stderr, "REPLAY %s\n", mine ? "violation" : "pass"); return mine ? 1 : 0; }
@@ -102,6 +103,19 @@ int main(int argc, char **argv) {
             for (auto &fl : H.fails) if (fl.prop == "C12" && violations == 0) { violations++; std::string note = "exhaustive sequence, step " + std::to_string(fl.step) + ": " + fl.msg; write_file(faildir + "/fail_C12.case", history_to_text(ops, "C12", note)); st.findings.push_back("{\"violation\":true,\"sub\":\"" + jesc(note.substr(0, 400)) + "\",\"file\":\"" + jesc(faildir + "/fail_C12.case") + "\"}"); } } } }
       if (depth == L) return; for (int l = 0; l < 9; l++) { seq.push_back(l); rec(depth + 1); seq.pop_back(); } };
     rec(0); st.count("exhaustive_sequences_total", total); st.flush(); return violations ? 1 : 0; }
+  if (const char *en = arg_value(argc, argv, "--enumerate")) {   // exhaustive pass: every (solution, scalar type, C++ overload) for C15 / every (solution, C entry point) for C17, once each, at two argument sets
+    std::string prop = en; std::string faildir = arg_value(argc, argv, "--faildir", "."); stats().path = arg_value(argc, argv, "--out", ""); mkdir(faildir.c_str(), 0755); Stats &st = stats(); Profile pf = profile_for(prop);
+    std::vector<std::string> cat = read_catalogue(); int shard = atoi(arg_value(argc, argv, "--shard", "0")), nshards = atoi(arg_value(argc, argv, "--nshards", "1")); int violations = 0; long pair = 0;
+    size_t nfn = prop == "C17" ? capi_table().size() : api_table<double>().size();
+    for (size_t si = 0; si < cat.size(); si++) for (int prec = 0; prec < (prop == "C17" ? 1 : 2); prec++) for (size_t fi = 0; fi < nfn; fi++) for (int rep = 0; rep < 2; rep++) { if (pair++ % nshards != shard) continue;
+      std::vector<Op> ops; Op i0; i0.code = OP_INIT; i0.prec = prec; i0.h = 0; i0.s = (int)si; ops.push_back(i0);
+      Op e; e.code = prop == "C17" ? OP_CEVAL : OP_EVAL; e.prec = prec; e.api = (int)fi; e.n = 0; /* n % 3 == 0: take exactly this overload */ e.idx = rep ? 5 : 9; for (int k = 0; k < 4; k++) e.v[k] = mix64(1000 * si + 10 * fi + rep + 7 * k) | 3; ops.push_back(e);
+      HistConfig cfg; cfg.escape_prop = prop; cfg.catalogue = cat; cfg.check_fresh = false; Forked H = run_forked(ops, cfg);
+      if (H.signal || !H.ok) { Failure f; f.prop = prop; f.step = 2; f.msg = "the library ended the process (" + std::to_string(H.signal) + ")"; H.fails.push_back(f); }
+      st.count("cases"); st.count("evaluations", H.step); st.count("class:enumerated_pairs"); for (auto &kv : H.cls) st.count("class:" + kv.first, kv.second); { Hasher h; h.i64((long)si); h.i64(prec); h.i64((long)fi); h.i64(rep); st.distinct.insert(h.h); }
+      if (st.samples.size() < 3 && pair % 1999 == 1 && H.trace.size() > 1) st.sample("{\"enumerated\":\"" + jesc(H.trace[1]) + "\"}");
+      for (auto &fl : H.fails) if (fl.prop == prop && violations < 1) { violations++; std::string note = "enumeration: " + (H.trace.size() > 1 ? H.trace[1] : std::string("?")) + ": " + fl.msg; write_file(faildir + "/fail_" + prop + ".case", history_to_text(ops, prop + "-enum", note)); st.findings.push_back("{\"violation\":true,\"sub\":\"" + jesc(note.substr(0, 400)) + "\",\"file\":\"" + jesc(faildir + "/fail_" + prop + ".case") + "\"}"); } }
+    st.flush(); return violations ? 1 : 0; }
   int dump_n = atoi(arg_value(argc, argv, "--dump", "0")); std::string dump_dir = arg_value(argc, argv, "--dump-dir", ".");
   std::string prop = arg_value(argc, argv, "--prop", "C11"); uint64_t seed = strtoull(arg_value(argc, argv, "--seed", "1"), 0, 10); int cases = atoi(arg_value(argc, argv, "--cases", "100")); int maxsize = atoi(arg_value(argc, argv, "--maxsize", "100"));
   std::string faildir = arg_value(argc, argv, "--faildir", "."); stats().path = arg_value(argc, argv, "--out", ""); mkdir(faildir.c_str(), 0755); Stats &st = stats();
